@@ -66,6 +66,12 @@ def dec(v):
             return np.float64(v["v"])
         if v["t"] == "npint":
             return np.int64(v["v"])
+        if v["t"] == "np32":
+            return np.float32(v["v"])
+        if v["t"] == "itf":
+            from hvsrpy.instrument_response import InstrumentTransferFunction
+            return InstrumentTransferFunction(poles=[complex(*p) for p in v["poles"]], zeros=[complex(*z) for z in v["zeros"]],
+                                              instrument_sensitivity=v["sens"], normalization_factor=v["a0"])
     return copy.deepcopy(v)
 
 
@@ -79,6 +85,10 @@ def norm(x):
         return [norm(e) for e in x]
     if isinstance(x, dict):
         return {str(k): norm(v) for k, v in x.items()}
+    if isinstance(x, complex):
+        return ["complex", x.real, x.imag]
+    if type(x).__name__ == "InstrumentTransferFunction":
+        return {"InstrumentTransferFunction": norm(vars(x))}
     return x
 
 
@@ -141,6 +151,16 @@ def draw_args(rng, cls):
             lo = rng.choice([None, 0.1, 0.5, awkward(rng)])
             hi = rng.choice([None, 20.0, 30.0])
             a["filter_corner_frequencies_in_hz"] = seq(rng, [lo, hi])
+            if rng.random() < 0.15 and a["filter_corner_frequencies_in_hz"]["t"] in ("list", "tuple"):
+                # corner frequencies picked out of arrays: numpy scalars inside a plain list
+                a["filter_corner_frequencies_in_hz"]["v"] = [
+                    v if v is None else {"t": rng.choice(["npfloat", "np32", "npint"]), "v": v if v != 0.1 + 0.2 else 0.3}
+                    for v in a["filter_corner_frequencies_in_hz"]["v"]]
+                for e in a["filter_corner_frequencies_in_hz"]["v"]:
+                    if isinstance(e, dict) and e["t"] == "npint":
+                        e["v"] = int(max(1, round(e["v"])))
+                    if isinstance(e, dict) and e["t"] == "np32":
+                        e["v"] = float(np.float32(e["v"]))
         if maybe():
             a["window_length_in_seconds"] = rng.choice([2.0, 2.5, 4.0, None])
         if maybe():
@@ -154,6 +174,10 @@ def draw_args(rng, cls):
                 a["fft_settings"] = {"t": "dict", "v": {"n": rng.choice([1024, 4096])}}
             if maybe(0.3):
                 a["differentiate"] = True
+            if maybe(0.08):
+                # the documented way to describe the sensor: an InstrumentTransferFunction object
+                a["instrument_transfer_function"] = {"t": "itf", "poles": [[-4.44, 4.44], [-4.44, -4.44]], "zeros": [[0.0, 0.0], [0.0, 0.0]],
+                                                     "sens": 400.0, "a0": 1.0}
         return a
     if maybe():
         a["window_type_and_width"] = seq(rng, ["tukey", rng.choice([0.0, 0.05, 0.2, 1.0, awkward(rng) % 1])])
@@ -439,7 +463,11 @@ def execute(triple, prop):
                         else:
                             H.write_settings_object_to_file(o, path)
                     if fault:
-                        size = len(json.dumps(o.attr_dict))
+                        try:
+                            size = len(json.dumps(o.attr_dict))
+                        except Exception:                           # noqa  (judged by the fault-free save below)
+                            fault = None
+                    if fault:
                         fault["at"] = min(max(0, int(fault["frac"] * size)), max(0, size - 1))
                         live = st.fs.arm(fault)     # applies to whatever file the save opens (also a temporary name)
                         fault_kind = fault["kind"]
@@ -469,8 +497,17 @@ def execute(triple, prop):
                         finally:
                             st.fs.disarm()
                     else:
-                        do_save()
-                        st.saved[path] = (content(o), i)
+                        try:
+                            do_save()
+                            st.saved[path] = (content(o), i)
+                        except Exception as ex:                     # noqa
+                            st.saved.pop(path, None)
+                            st.torn = getattr(st, "torn", set()) | {path}
+                            bad = [n_ for n_ in o.attrs if type(getattr(o, n_, None)).__name__ == "InstrumentTransferFunction"]
+                            ctx.check(False, "save_raised",
+                                      f"saving a {type(o).__name__} raised {type(ex).__name__}: {ex}",
+                                      key={"cls": type(o).__name__, "exc": type(ex).__name__,
+                                           "attr": bad[0] if bad else "other"})
                     sigx = "save:" + op["via"]
                     ctx.state_changes += 1
                 elif name in ("load_new", "dispatch_read", "load_into"):
